@@ -69,12 +69,19 @@ def check_budget_guard(ctx: Ctx) -> None:
             for r in raises:
                 rn = cfg.node_of(r)
                 own = [tv for tv in branch_conditions(cfg, rn) if tv not in c_conds]
-                if not own or not all(v for _, v in own):
-                    detail = "the raise is not under a positive guard"
-                    continue
                 lits = []
+                bad_branch = False
                 for t, v in own:
-                    lits += conj_literals(cfg.ast[t].test)
+                    cl = conj_literals(cfg.ast[t].test)
+                    if v:
+                        lits += cl
+                    elif len(cl) == 1:
+                        lits.append((not cl[0][0], cl[0][1]))  # the false branch of a single literal is its negation
+                    else:
+                        bad_branch = True
+                if not own or bad_branch:
+                    detail = "the raise is not under a guard made of literal conditions"
+                    continue
                 pos = [e for p, e in lits if p]
                 neg = [e for p, e in lits if not p]
                 has_max = len(pos) == 1 and isinstance(pos[0], ast.Attribute) and pos[0].attr == "maximum_is_reached" and (dotted(pos[0].value) or "").endswith("_evaluation_counter")
